@@ -82,6 +82,19 @@ theorem ks_replace {H : KHeap K} {x : KTx K} (h : KS H x) {w : K} {o q : Oid} (t
       · intro e'; cases e'; exact hqb rfl
       · exact r3 k'
 
+theorem ks_unpostOne {H : KHeap K} {x : KTx K} (h : KS H x) (d : Int) {w : K} {o : Oid}
+    (hf : AMap.get x.heap.fwd w = some o) : KS H (KTx.unpostOne x d w o) := by
+  unfold KTx.unpostOne
+  simp only
+  have h2 : KS H ((x.postPut o d ((x.obj o).1, LSet.remove (x.obj o).2 d)).rd (.whole o)) :=
+    ks_rd (ks_postPut h hf d _) _
+  by_cases he : LSet.remove (x.obj o).2 d = []
+  · simp only [he, if_true]
+    rw [he] at h2
+    exact ks_fwdErase (t := (x.obj o).1) h2 hf (by simp [KTx.postPut, KTx.rd, AMap.get_set])
+      (by simp [KTx.postPut, KTx.rd, dirtyK_cons, Loc.obj])
+  · simp only [he, if_false]; exact h2
+
 theorem ks_unpostAll {H : KHeap K} (d : Int) : ∀ (ws : List K) (x : KTx K), KS H x →
     KS H (KTx.unpostAll x d ws).1 := by
   intro ws
@@ -95,21 +108,9 @@ theorem ks_unpostAll {H : KHeap K} (d : Int) : ∀ (ws : List K) (x : KTx K), KS
     rcases opt_cases' (AMap.get x.heap.fwd w) with hf | ⟨o, hf⟩
     · simp only [e0, hf]; exact ks_rd h _
     · simp only [e0, hf]
-      have h1 : KS H ((x.rd (.fwd w)).rd (.post o d)) := ks_rd (ks_rd h _) _
-      have hf1 : AMap.get ((x.rd (.fwd w)).rd (.post o d)).heap.fwd w = some o := hf
-      generalize ((x.rd (.fwd w)).rd (.post o d)) = x1 at h1 hf1 ⊢
-      by_cases hm : d ∈ (x1.obj o).2
-      · simp only [hm, if_true]
-        apply ih
-        have h2 : KS H ((x1.postPut o d ((x1.obj o).1, LSet.remove (x1.obj o).2 d)).rd (.whole o)) :=
-          ks_rd (ks_postPut h1 hf1 d _) _
-        by_cases he : LSet.remove (x1.obj o).2 d = []
-        · simp only [he, if_true]
-          rw [he] at h2
-          exact ks_fwdErase (t := (x1.obj o).1) h2 hf1 (by simp [KTx.postPut, KTx.rd, AMap.get_set])
-            (by simp [KTx.postPut, KTx.rd, dirtyK_cons, Loc.obj])
-        · simp only [he, if_false]; exact h2
-      · simp only [hm, if_false]; exact h1
+      split
+      · exact ih _ (ks_unpostOne (ks_rd (ks_rd h _) _) d hf)
+      · exact ks_rd (ks_rd h _) _
 
 theorem ks_unindexDoc {H : KHeap K} {x : KTx K} (h : KS H x) (d : Int) : KS H (x.unindexDoc d) := by
   unfold KTx.unindexDoc
